@@ -7,6 +7,7 @@ import (
 	"go/types"
 	"sort"
 	"strings"
+	"verifsa/internal/paths"
 
 	"golang.org/x/tools/go/ssa"
 
@@ -83,6 +84,19 @@ func prioRule(c *core.Ctx, global, ctor, typ string) {
 				case *ssa.Lookup:
 					if globalOf(x.X) == global && fn.Name() == "Priority" {
 						readers++
+						// the table is indexed by the coding itself, not by a projection of it (two codings that share a wire
+						// number would otherwise share a priority and ties would be broken by map order)
+						idx := x.Index
+						for {
+							if ct, ok := idx.(*ssa.ChangeType); ok {
+								idx = ct.X
+								continue
+							}
+							break
+						}
+						if len(fn.Params) == 0 || idx != ssa.Value(fn.Params[0]) {
+							outside = append(outside, "Priority() indexes the table with "+role(plain, x.Index)+" instead of the coding itself")
+						}
 					}
 				case *ssa.Store:
 					if g, ok := x.Addr.(*ssa.Global); ok && g.Name() == global && fn.Name() != "init" && !strings.HasPrefix(fn.Name(), "init#") {
@@ -389,6 +403,39 @@ func flowRule(c *core.Ctx) {
 		}
 	}
 	c.Decide(fbOK, "C09-FLOW", "Build#fallback", pos, "UCS-2 fallback only when nothing encoded and UCS-2 was not among the candidates", "the UCS-2 fallback is not guarded by `no candidate encoded` and `UCS-2 was not a candidate`")
+	// a candidate's codec comes from a constructor without a default: an undeclared coding must yield nil (and so
+	// canEncode=false), not a substitute codec whose output would then compete under the undeclared coding's name.
+	if run := c.Prog.SSAFunc(c.Prog.LookupMethod("", "encoder", "Run")); run == nil {
+		c.Broken("C09-FLOW", "encoder.Run#codec-source", "method not found")
+	} else {
+		var problems []string
+		n := 0
+		for _, b := range run.Blocks {
+			for _, ins := range b.Instrs {
+				call, ok := ins.(*ssa.Call)
+				if !ok || call.Call.StaticCallee() == nil || call.Call.StaticCallee().Pkg == nil || !strings.HasSuffix(call.Call.StaticCallee().Pkg.Pkg.Path(), "/datacoding") {
+					continue
+				}
+				cal := call.Call.StaticCallee()
+				res := cal.Signature.Results()
+				if res.Len() != 1 || !strings.HasSuffix(res.At(0).Type().String(), "datacoding.Codec") || len(call.Call.Args) != 2 {
+					continue
+				}
+				n++
+				r, _, _, why := evalEnum(cal, 1<<40)
+				switch {
+				case why != "":
+					problems = append(problems, cal.Name()+" could not be evaluated for an undeclared coding: "+why)
+				case !paths.IsNilConst(r):
+					problems = append(problems, cal.Name()+" returns "+role(plain, r)+" for an undeclared coding instead of nil: an unsupported number is encoded by a substitute codec and competes as a candidate")
+				}
+			}
+		}
+		if n == 0 {
+			problems = append(problems, "no codec constructor call found")
+		}
+		c.Decide(len(problems) == 0, "C09-FLOW", "encoder.Run#codec-source", c.Prog.Pos(run.Pos()), "candidate codecs come from constructors that yield nil for undeclared codings", strings.Join(dedup(problems), "; "))
+	}
 	// per-candidate decision: import the C06 SINGLE rule for encoder.Run
 	sub := c.Fork()
 	runC06(sub)
@@ -706,6 +753,20 @@ func globalWrites(fn *ssa.Function) []string {
 			case *ssa.MapUpdate:
 				g = rootGlobal(x.Map)
 			case ssa.CallInstruction:
+				// append(g[:k], ...) / copy(g[..], ...) on a slice of package-level storage writes that storage in place
+				if bi, ok := x.Common().Value.(*ssa.Builtin); ok && (bi.Name() == "append" || bi.Name() == "copy") && len(x.Common().Args) > 0 {
+					var roots []ssa.Value
+					rootsOf(x.Common().Args[0], map[ssa.Value]bool{}, &roots)
+					for _, r := range roots {
+						if gg := rootGlobal(r); gg != nil {
+							g = gg
+						} else if u, ok := r.(*ssa.UnOp); ok {
+							if gg := rootGlobal(u.X); gg != nil {
+								g = gg
+							}
+						}
+					}
+				}
 				if cal := x.Common().StaticCallee(); cal != nil {
 					if mp := mutatesParams(cal); mp != nil {
 						for k, a := range x.Common().Args {
